@@ -25,10 +25,10 @@ type c03Cfg struct {
 
 func runC03(env *lib.Env, rep *lib.Report) {
 	d, suffix := 2, 1
-	seeds := []string{"empty", "t1x8", "t1x8+t2t3", "t1x8-upper-deleted", "interleaved", "t1x30"}
+	seeds := []string{"empty", "t1x8", "t1x8-upper-deleted", "interleaved"}
 	if env.Thorough() {
 		d, suffix = 3, 2
-		seeds = append(seeds, "t1x8+t2t3-crashed", "catalog-split")
+		seeds = append(seeds, "t1x8+t2t3", "t1x30", "t1x8+t2t3-crashed", "catalog-split")
 	}
 	alpha := alphaOpt{Tables: []string{"t1", "t2"}, Inserts: []int{1, 4, 9}, Updates: true, Deletes: true}
 	sfx := alphaOpt{Tables: []string{"t1", "t2"}, Inserts: []int{1, 9}}
